@@ -382,7 +382,11 @@ NATURAL = {"serial_notify": 12, "cache_response": 8, "ipv4": 20, "ipv6": 32, "eo
 
 def hostile_frame(rnd, c):
     v = c.v
-    k = rnd.choice(["fields4", "fields6", "key", "eodiv", "len", "len", "errpdu", "errpdu", "type", "raw"])
+    k = rnd.choice(["fields4", "fields6", "key", "eodiv", "len", "len", "errpdu", "errpdu", "errmax", "type", "raw"])
+    if k == "errmax":         # an Error Report as long as a PDU may be whose inner lengths leave less room than the fields behind them need
+        ln = rnd.choice([3244, 3245, 3246, 3247, 3248, 3248, 3248])
+        return {"t": "error", "v": rnd.choice([v, v, 0, 1]), "code": rnd.choice([0, 2, 3, 255]), "enc": "", "txt": "", "len": ln,
+                "enclen": ln - rnd.choice([11, 12, 12, 13, 13, 14, 14, 15, 15, 16, 17])}
     if k == "fields4":
         return {"t": "ipv4", "v": v, "flags": rnd.choice([0, 1, 1, 2, 255]), "len_": rnd.choice([0, 1, 24, 32, 33, 128, 200, 255]),
                 "max": rnd.choice([0, 1, 24, 32, 33, 255]), "zero": rnd.choice([0, 1, 255]), "pfx": "%08x" % rnd.getrandbits(32),
